@@ -190,7 +190,7 @@ func cmdCheck(args []string) {
 	var retry []*vc.Obligation
 	var retryIdx []int
 	for i, r := range results {
-		if !r.OK && !r.Obl.ExpectSat && r.Status != "sat" {
+		if !r.OK && !r.Obl.ExpectSat && r.Status != "sat" && matchFinding(kf.Findings, *prop, r.Obl.Name) == nil {
 			retry = append(retry, r.Obl)
 			retryIdx = append(retryIdx, i)
 		}
